@@ -132,9 +132,39 @@ PRELUDE = r"""
 (declare-fun dt_iso (DT) String)
 (declare-fun dt_str (DT) String)
 (declare-fun flt_repr (Flt) String)
-(declare-fun int_of_bool (Bool) Int)
-(assert (= (int_of_bool true) 1))
-(assert (= (int_of_bool false) 0))
+(define-fun int_of_bool ((b Bool)) Int (ite b 1 0))
+; canonical key of a value: collapses exactly what Python's ==/hash identify among attribute values
+; (True == 1; QualifiedName == Identifier with the same URI; Literal datatypes compare by URI).
+; Floats and datetimes are abstract sorts whose equality *is* Python's == (A3, A4); the cross-kind
+; collision 1 == 1.0 is excluded by the properties themselves.
+(define-fun ck ((v Val)) Val
+  (ite ((_ is VBool) v) (VInt (int_of_bool (vbool v)))
+  (ite ((_ is VQN) v) (VIdent (qn_uri (vqn v)))
+  (ite ((_ is VLit) v) (VLit (mkLit (lit_value (vlit v))
+        (ite ((_ is none_QN) (lit_dt (vlit v))) none_QN (some_QN (mkQN (mkNs "" (qn_uri (the_QN (lit_dt (vlit v))))) "")))
+        (lit_lang (vlit v))))
+   v))))
+(define-fun py_eq ((a Val) (b Val)) Bool (= (ck a) (ck b)))
+; python set of attribute values: presence by canonical key, first-inserted representative, size
+(declare-datatypes ((VSet 0)) (((mkVSet (vs_has (Array Val Bool)) (vs_rep (Array Val Val)) (vs_n Int)))))
+(define-fun vs_empty () VSet (mkVSet ((as const (Array Val Bool)) false) ((as const (Array Val Val)) VNone) 0))
+(define-fun vs_in ((s VSet) (v Val)) Bool (select (vs_has s) (ck v)))
+(define-fun vs_add ((s VSet) (v Val)) VSet
+  (ite (select (vs_has s) (ck v)) s
+       (mkVSet (store (vs_has s) (ck v) true) (store (vs_rep s) (ck v) v) (+ (vs_n s) 1))))
+(define-fun vs_single ((v Val)) VSet (vs_add vs_empty v))
+(declare-fun vs_firstkey (VSet) Val)
+(define-fun vs_first ((s VSet)) Val (ite (= (vs_n s) 0) VNone (select (vs_rep s) (vs_firstkey s))))
+; well-formedness of a set value (holds for vs_empty and is preserved by vs_add)
+(define-fun vs_wf ((s VSet)) Bool (and (>= (vs_n s) 0)
+   (= (= (vs_n s) 0) (= (vs_has s) ((as const (Array Val Bool)) false)))
+   (=> (> (vs_n s) 0) (select (vs_has s) (vs_firstkey s)))
+   (=> (= (vs_n s) 1) (= (vs_has s) (store ((as const (Array Val Bool)) false) (vs_firstkey s) true)))))
+; canonical key of a record (what ProvRecord.__eq__/__hash__ look at): type, identifier URI, attribute pairs
+(declare-datatypes ((Tup_Str_Val 0)) (((mk_Tup_Str_Val (Tup_Str_Val_0 String) (Tup_Str_Val_1 Val)))))
+(declare-datatypes ((RKey 0)) (((mkRKey (rk_type Opt_QN) (rk_id Opt_Str) (rk_attrs (Array Tup_Str_Val Bool))))))
+; python set of record objects (membership by __hash__/__eq__, i.e. by RKey), representative object, size
+(declare-datatypes ((OSet 0)) (((mkOSet (os_has (Array RKey Bool)) (os_rep (Array RKey Int)) (os_n Int)))))
 """
 
-PRELUDE_SORTS = {"Opt_QN", "Opt_Str"}
+PRELUDE_SORTS = {"Opt_QN", "Opt_Str", "Tup_Str_Val"}
